@@ -847,7 +847,7 @@ theorem asyncProcess_equiv (hP : RunInv m u (hooksAsync u m) .async P C E) (e : 
   · by_cases herr : r.err.isSome = true
     · have herr' : r'.err.isSome = true := e3.err ▸ herr
       rw [if_pos herr, if_pos herr', ← e3.errors]
-      exact ⟨e3.cfg, e3.hist, e3.queue, e3.status, e3.trace, rfl, e3.ctx, e3.raiseDepth, rfl⟩
+      exact ⟨e3.cfg, e3.hist, e3.queue, e3.status, e3.trace, rfl, e3.ctx, e3.raiseDepth, rfl, e3.expCut⟩
     · have herr' : ¬ r'.err.isSome = true := e3.err ▸ herr
       rw [if_neg herr, if_neg herr']
       exact e3
@@ -926,8 +926,9 @@ theorem send_equiv {m : Machine} {u : UEnv} {P : St → Prop} {C : Cand → Prop
   | async => exact asyncSend_equiv hP e he hs
 
 /-- what the observer forgets between two commands: the trace, the error flag and the failure count of
-    the previous command (the driver's `runCmd`, the harness's `log.clear()`) -/
-def obsReset (s : St) : St := { s with trace := [], err := none, errors := 0 }
+    the previous command (the driver's `runCmd`, the harness's `log.clear()`) — and `_expansion_cut`,
+    which is dead between commands (the code resets it at the next top-level built-in before any read) -/
+def obsReset (s : St) : St := { s with trace := [], err := none, errors := 0, expCut := false }
 
 /-- one command as observed: `send`, from a cleared observation -/
 def cmdO (fl : Flavor) (m : Machine) (u : UEnv) (s : St) (e : Ev) : St := send fl m u e (obsReset s)
@@ -937,7 +938,7 @@ def cmdO (fl : Flavor) (m : Machine) (u : UEnv) (s : St) (e : Ev) : St := send f
 def SnapEquiv (m : Machine) (s s' : St) : Prop := St.equiv m (obsReset s) (obsReset s')
 
 theorem SnapEquiv.of_equiv {m : Machine} {s s' : St} (h : St.equiv m s s') : SnapEquiv m s s' :=
-  ⟨h.cfg, h.hist, h.queue, h.status, TraceEq.nil, rfl, h.ctx, h.raiseDepth, rfl⟩
+  ⟨h.cfg, h.hist, h.queue, h.status, TraceEq.nil, rfl, h.ctx, h.raiseDepth, rfl, rfl⟩
 
 /-- **the bisimulation step**: one more command keeps equivalent states equivalent — now including
     everything that command logged (trace records in order, error flag, failure count) -/
